@@ -121,6 +121,14 @@ check("C16", "exploration",
       "Trusted: the closed-form derivatives of the generated function family, evaluated with raw NumPy.",
       "property-based testing (Hypothesis) with closed-form oracles", "DESIGN.md C16")
 
+check("C17", "exploration",
+      "Generated user primitives (arity 1-5, polynomial with closed-form partials, keyword parameter) registered through every public "
+      "registration API with rule / None / missing patterns, arguments assigned to trace levels of a depth-2 nesting: first derivatives, "
+      "mixed partials, forward mode, logged ans/args/kwargs, rule routing, loud failure for missing rules, zeros of the argument's space for "
+      "None positions, VJP reuse; checkpoint: value and reverse derivatives of order 1-3 incl. mixed partials equal the un-wrapped function.",
+      "Trusted: closed-form partials of the polynomial family.",
+      "property-based testing (Hypothesis) with closed-form oracles and a differential (checkpoint vs plain) oracle", "DESIGN.md C17")
+
 NOT_YET = {}
 
 
